@@ -497,8 +497,10 @@ def check(ax, case, rec):
             axis = (flag >> 1) % 3  # 0 (the first column - not to be confused with None), 1 or 2
             axes = axis + 1 + (case["seed"] % 2)
             vals = rng.uniform(-1, 1, axes)
+            if case["seed"] % 3 == 2:
+                vals = [int(v_) for v_ in np.round(3 * vals)]  # whole-number defaults given as Python integers (values=[-1, 0])
             got2 = fm.linsteps(pts, num=num, endpoint=endpoint, axis=axis, axes=axes, values=vals)
-            ref2 = np.ones((len(ref), axes)) * vals
+            ref2 = np.ones((len(ref), axes)) * np.asarray(vals, float)
             ref2[:, axis] = ref
             rec.require("linsteps-axis-shape", got2.shape == ref2.shape, str(got2.shape))
             if got2.shape == ref2.shape:
